@@ -223,6 +223,31 @@ func runC01(c *fw.Ctx) {
 		c.Case(func(k *fw.K) { c01GradientAsData(k) })
 	}
 
+	// ---------- a reconverging block behind a SATURATED unit: r = c*h + h^2 with h = tanh(x), |x| = 9..15 and c = 1e6..1e7 - the total
+	// derivative (c + 2h)/cosh^2(x) is an ordinary number (1e-6..1) although the local derivative of tanh is 1e-8..1e-13 ----------
+	for i := 0; i < c.Pick(300, 6000); i++ {
+		c.Case(func(k *fw.K) {
+			r := k.Rng
+			shape := RandShape(r, 1, 2, 3)
+			x := ref.Zeros(shape)
+			for j := range x.Data {
+				x.Data[j] = (9 + 6*r.Float64()) * []float64{1, -1}[r.Intn(2)]
+			}
+			cf := math.Ldexp(1, 20+r.Intn(4)) // 2^20..2^23: c*h is exact up to one rounding
+			p := ref.Prog{{Op: "leaf", Shape: shape, Data: x.Data, Tracked: true}, {Op: "tanh", In: []int{0}}, {Op: "scale", In: []int{1}, F: cf},
+				{Op: "pow", In: []int{1}, F: 2}, {Op: "add", In: []int{2, 3}}}
+			vals, err := p.Eval()
+			if err != nil {
+				k.Failf("harness: %v", err)
+				return
+			}
+			k.Case = c01case{Family: "reconverging block behind a saturated tanh", Prog: p, Roots: []int{4}}
+			k.Key("saturated-diamond/%s/%g", shapeKey(shape), cf)
+			k.Count("saturated_diamond_cases", 1)
+			c01OneRoot(k, p, vals, 4)
+		})
+	}
+
 	// ---------- family 3: deep ladders / fan-out chains (bounded-application clause) ----------
 	depths := []int{8, 16, 24, 32, 48, 64}
 	if !c.Quick() {
